@@ -114,8 +114,12 @@ func Parse(block []rune, pos int) (pt ParsedTokens, syntaxHighlighted string) {
 		pt.pop = &pt.Parameters[len(pt.Parameters)-1]
 	}
 
+	// position of the most recent escaped character (its highlighting ends in a reset code)
+	lastEscaped := -1
+
 	escaped := func() {
 		pt.Escaped = false
+		lastEscaped = i
 		*pt.pop += string(block[i])
 		ansiReset(block[i])
 	}
@@ -352,7 +356,7 @@ func Parse(block []rune, pos int) (pt ParsedTokens, syntaxHighlighted string) {
 			case pt.QuoteSingle, pt.QuoteDouble, pt.QuoteBrace > 0:
 				*pt.pop += ` `
 				syntaxHighlighted += string(block[i])
-			case i > 0 && (block[i-1] == '-' || block[i-1] == '='):
+			case i > 0 && (block[i-1] == '-' || block[i-1] == '=') && lastEscaped != i-1:
 				if pos != 0 && pt.Loc >= pos {
 					return
 				}
@@ -712,6 +716,7 @@ func Parse(block []rune, pos int) (pt ParsedTokens, syntaxHighlighted string) {
 			switch {
 			case pt.Escaped:
 				pt.Escaped = false
+				lastEscaped = i
 				ansiReset(block[i])
 				switch block[i] {
 				case 'r':
